@@ -461,6 +461,7 @@ type cand struct {
 	weight float64 // sampling weight (type-name corruptions apply to every node: thinned out)
 	where  string  // nesting signature of the edited node
 	class  string  // known-finding class, decided from the structure of the case
+	id     int     // the node whose rule list is edited
 	build  func() (c *schema, violators []int, ok bool)
 }
 
@@ -512,6 +513,47 @@ func (s *schema) examplesFor(n *node) []example {
 		}
 	}
 	return exs
+}
+
+// inconsistent: the bounds of rule list rs contradict each other.
+func inconsistent(rs []rule) bool {
+	lo, hi := findRule(rs, "min"), findRule(rs, "max")
+	if lo >= 0 && hi >= 0 {
+		if rs[lo].num > rs[hi].num {
+			return true
+		}
+		ex := false
+		for _, nm := range []string{"exclusiveMinimum", "exclusiveMaximum"} {
+			if i := findRule(rs, nm); i >= 0 && rs[i].b {
+				ex = true
+			}
+		}
+		if ex && rs[lo].num == rs[hi].num {
+			return true
+		}
+	}
+	lo, hi = findRule(rs, "minLength"), findRule(rs, "maxLength")
+	return lo >= 0 && hi >= 0 && rs[lo].n > rs[hi].n
+}
+
+// hasEnumItem: does any enum rule of the schema (on a node or inside an or member) list item?
+func (s *schema) hasEnumItem(item string) bool {
+	found := false
+	var scan func(rs []rule)
+	scan = func(rs []rule) {
+		for _, r := range rs {
+			for _, it := range r.items {
+				if it == item {
+					found = true
+				}
+			}
+			for _, a := range r.alts {
+				scan(a.rules)
+			}
+		}
+	}
+	s.walk(func(n *node) { scan(n.rules) })
+	return found
 }
 
 // violatorIDs: the values that may carry the error position (violating under some
@@ -578,66 +620,94 @@ func candidates(r *rand.Rand, s *schema) []cand {
 		case n.kind == kRef:
 			// nothing to corrupt on the reference itself
 		case n.mode == "or":
+			// every member that admits examples (the node's own one; for the root of a type also
+			// the values that reach the type through references) is corrupted so that the examples
+			// it admitted are admitted by no member any more.
 			oi := findRule(n.rules, "or")
-			mi := -1
-			for j, a := range n.rules[oi].alts {
-				if a.match {
-					mi = j
-				}
+			nullableHere := false
+			if i := findRule(n.rules, "nullable"); i >= 0 && n.rules[i].b {
+				nullableHere = true
 			}
-			a := n.rules[oi].alts[mi]
-			ex := exOf(n)
-			switch {
-			case ex.nullOK:
-				// a null admitted by the node's own nullable: true violates nothing
-			case a.rules == nil && !strings.HasPrefix(a.name, "@"):
-				k := n.kind
-				out = append(out, cand{label: "or-member-name", desc: "or-member-name-other-kind", weight: 1, where: where, class: orContainerClass(n, mi), build: func() (*schema, []int, bool) {
-					c := s.clone()
-					w := wrongTypeNames(k)
-					alts := c.find(id).rules[oi].alts
-					for tries := 0; tries < 20; tries++ {
-						nm := w[r.Intn(len(w))]
-						dup := false
-						for _, o := range alts {
-							if o.rules == nil && o.name == nm {
-								dup = true
-							}
-						}
-						if !dup {
-							alts[mi].name = nm
-							return c, []int{id}, true
+			exs := s.examplesFor(n)
+			for mi, a := range n.rules[oi].alts {
+				mi, a := mi, a
+				var aex []example // the examples member mi admits
+				sure := false     // one of them is not excused by a nullable: true
+				for _, e := range exs {
+					if hasID(a.adm, e.id) {
+						aex = append(aex, e)
+						if !e.nullOK && !(e.kind == kNull && nullableHere) {
+							sure = true
 						}
 					}
-					return nil, nil, false
-				}})
-			case a.rules != nil && !(len(a.rules) == 1 && strings.HasPrefix(a.rules[0].s, "@")):
-				for _, e := range ruleEdits(r, n.kind, a.rules, []example{ex}, false) {
-					e := e
-					out = append(out, cand{label: "or-member-rule", desc: "or-" + e.desc, weight: 1, where: where, class: orContainerClass(n, mi), build: func() (*schema, []int, bool) {
-						nrs, nr := e.f()
-						if len(violatorIDs(nr, nrs, []example{ex})) == 0 {
-							return nil, nil, false
-						}
-						c := s.clone()
-						c.find(id).rules[oi].alts[mi].rules = nrs
-						return c, []int{id}, true
-					}})
 				}
+				if !sure {
+					continue
+				}
+				var vio []int
+				for _, e := range aex {
+					vio = append(vio, e.id)
+				}
+				k := aex[0].kind
+				switch {
+				case a.rules == nil && !strings.HasPrefix(a.name, "@"):
+					out = append(out, cand{label: "or-member-name", desc: "or-member-name-other-kind", weight: 1, where: where, id: id, class: orContainerClass(n, mi), build: func() (*schema, []int, bool) {
+						c := s.clone()
+						w := wrongTypeNames(k)
+						alts := c.find(id).rules[oi].alts
+						for tries := 0; tries < 20; tries++ {
+							nm := w[r.Intn(len(w))]
+							dup := false
+							for _, o := range alts {
+								if o.rules == nil && o.name == nm {
+									dup = true
+								}
+							}
+							if !dup {
+								alts[mi].name = nm
+								return c, vio, true
+							}
+						}
+						return nil, nil, false
+					}})
+				case a.rules != nil && !(len(a.rules) == 1 && strings.HasPrefix(a.rules[0].s, "@")):
+					for _, e := range ruleEdits(r, k, a.rules, aex, false) {
+						e := e
+						if strings.HasPrefix(e.desc, "type-") && !a.match && len(a.rules) > 1 {
+							// a member for referencing values only: a type of another kind next to the
+							// member's other rules is an ill-formed rule-set of the TYPE (reported there),
+							// not a violation by the referencing value
+							continue
+						}
+						out = append(out, cand{label: "or-member-rule", desc: "or-" + e.desc, weight: 1, where: where, id: id, class: orContainerClass(n, mi), build: func() (*schema, []int, bool) {
+							nrs, nr := e.f()
+							v := violatorIDs(nr, nrs, aex)
+							if len(v) == 0 {
+								return nil, nil, false
+							}
+							if !a.match && inconsistent(nrs) {
+								return nil, nil, false // same reason: min > max is a defect of the type's rule-set
+							}
+							c := s.clone()
+							c.find(id).rules[oi].alts[mi].rules = nrs
+							return c, v, true
+						}})
+					}
+				}
+				// a member that is a user type is corrupted through the type root (label type-rule)
 			}
-			// a member that is a user type is corrupted through the type root (label type-rule)
 		case n.kind == kObj || n.kind == kArr:
 			cnt := len(n.kids)
 			if n.mode == "plain" {
 				if i := findRule(n.rules, "minItems"); i >= 0 {
-					out = append(out, cand{label: "item-count", desc: "minItems-above", weight: 1, where: where, build: func() (*schema, []int, bool) {
+					out = append(out, cand{label: "item-count", desc: "minItems-above", weight: 1, where: where, id: id, build: func() (*schema, []int, bool) {
 						c := s.clone()
 						c.find(id).rules[i].n = cnt + 1 + r.Intn(3)
 						return c, []int{id}, true
 					}})
 				}
 				if i := findRule(n.rules, "maxItems"); i >= 0 && cnt >= 1 {
-					out = append(out, cand{label: "item-count", desc: "maxItems-below", weight: 1, where: where, build: func() (*schema, []int, bool) {
+					out = append(out, cand{label: "item-count", desc: "maxItems-below", weight: 1, where: where, id: id, build: func() (*schema, []int, bool) {
 						c := s.clone()
 						c.find(id).rules[i].n = r.Intn(cnt)
 						return c, []int{id}, true
@@ -645,7 +715,7 @@ func candidates(r *rand.Rand, s *schema) []cand {
 				}
 				k := n.kind
 				rs := n.rules
-				out = append(out, cand{label: "container-type", desc: "container-type-other-kind", weight: 0.12, where: where, build: func() (*schema, []int, bool) {
+				out = append(out, cand{label: "container-type", desc: "container-type-other-kind", weight: 0.12, where: where, id: id, build: func() (*schema, []int, bool) {
 					c := s.clone()
 					w := wrongTypeNames(k)
 					nr := rule{name: "type", s: w[r.Intn(len(w))]}
@@ -672,7 +742,7 @@ func candidates(r *rand.Rand, s *schema) []cand {
 				if strings.HasPrefix(e.desc, "type-") {
 					w = 0.25
 				}
-				out = append(out, cand{label: lbl, desc: e.desc, weight: w, where: where, build: func() (*schema, []int, bool) {
+				out = append(out, cand{label: lbl, desc: e.desc, weight: w, where: where, id: id, build: func() (*schema, []int, bool) {
 					nrs, nr := e.f()
 					v := violatorIDs(nr, nrs, exs)
 					if len(v) == 0 {
@@ -686,20 +756,46 @@ func candidates(r *rand.Rand, s *schema) []cand {
 		case n.mode == "format":
 			i := findRule(n.rules, "type")
 			f := n.rules[i].s
-			out = append(out, cand{label: "format", desc: "format-broken-" + f, weight: 1, where: where, build: func() (*schema, []int, bool) {
-				c := s.clone()
-				cn := c.find(id)
-				b := formatBad[f]
-				cn.str = b[r.Intn(len(b))]
-				cn.lit = quoteJSON(cn.str)
-				return c, []int{id}, true
-			}})
+			exs := s.examplesFor(n) // the node's own string and the strings that reference the type
+			for _, e := range exs {
+				e := e
+				if e.kind != kStr {
+					continue
+				}
+				lbl := "format"
+				if e.id != id {
+					lbl = "type-rule"
+				}
+				out = append(out, cand{label: lbl, desc: "format-broken-" + f, weight: 1 / float64(len(exs)), where: where, id: id, build: func() (*schema, []int, bool) {
+					c := s.clone()
+					cn := c.find(e.id)
+					// a broken text that is not longer than the good one (a longer one might satisfy a
+					// minLength member of an or set on the way) and is no item of any enum
+					var bad []string
+					for _, b := range formatBad[f] {
+						if len(b) <= len(cn.str) && !c.hasEnumItem(quoteJSON(b)) {
+							bad = append(bad, b)
+						}
+					}
+					if len(bad) == 0 {
+						return nil, nil, false
+					}
+					cn.str = bad[r.Intn(len(bad))]
+					cn.lit = quoteJSON(cn.str)
+					cn.fmt = ""
+					return c, []int{e.id}, true
+				}})
+			}
 			k := n.kind
-			out = append(out, cand{label: "format", desc: "format-type-other-kind", weight: 0.5, where: where, build: func() (*schema, []int, bool) {
+			out = append(out, cand{label: "format", desc: "format-type-other-kind", weight: 0.5, where: where, id: id, build: func() (*schema, []int, bool) {
 				c := s.clone()
 				w := wrongTypeNames(k)
 				c.find(id).rules[i].s = w[r.Intn(len(w))]
-				return c, []int{id}, true
+				var v []int
+				for _, e := range exs {
+					v = append(v, e.id)
+				}
+				return c, v, true
 			}})
 		}
 	})
@@ -713,7 +809,7 @@ func knownOrMinItems(r *rand.Rand, variant int) (*schema, int) {
 	g := &gen{r: r, s: s, budget: 12}
 	arr := g.newNode(kArr)
 	arr.mode = "or"
-	member := alt{rules: []rule{{name: "type", s: "array"}, {name: "minItems", n: 1 + r.Intn(3)}}, match: true}
+	member := alt{rules: []rule{{name: "type", s: "array"}, {name: "minItems", n: 1 + r.Intn(3)}}, match: true, adm: []int{arr.id}}
 	if r.Intn(2) == 0 {
 		member.rules[0], member.rules[1] = member.rules[1], member.rules[0]
 	}
@@ -912,12 +1008,12 @@ func oneSchema(i int, shortcuts bool, nc int) []outcome {
 			continue
 		}
 		done++
-		outs = append(outs, runCorruption(cs, violators, c.label, c.desc, c.where, c.class))
+		outs = append(outs, runCorruption(cs, violators, c.label, c.desc, c.where, c.class, c.id))
 	}
 	return outs
 }
 
-func runCorruption(cs *schema, violators []int, label, desc, where, class string) outcome {
+func runCorruption(cs *schema, violators []int, label, desc, where, class string, edited int) outcome {
 	cfull, _ := cs.render()
 	want := expectPositions(cs, violators)
 	cchk, _ := runLib(cfull, cs.names(), "")
@@ -947,6 +1043,20 @@ func runCorruption(cs *schema, violators []int, label, desc, where, class string
 	add(fmt.Sprintf("b_nesting_%d", strings.Count(where, ">")))
 	if len(want) > 1 {
 		add("b_several_violating_values")
+	}
+	if strings.HasPrefix(where, "type:") {
+		foreign := 0
+		for _, v := range violators {
+			if v != edited {
+				foreign++
+			}
+		}
+		if en := cs.find(edited); en != nil && foreign > 0 {
+			add("b_type_root_" + en.mode + "_violated_by_referencing_value")
+			if foreign == len(violators) {
+				add("b_type_root_" + en.mode + "_violated_ONLY_by_referencing_values")
+			}
+		}
 	}
 	co.nontrivial = strings.Count(where, ">") >= 1 || strings.HasPrefix(where, "type:") || strings.HasPrefix(label, "or-")
 	model := fmt.Sprintf("Check() fails with Position() in %v (offset of the violating value) [%s at %s]", want, desc, where)
@@ -985,7 +1095,7 @@ func oneKnown(i int) []outcome {
 	if !bchk.ok {
 		return []outcome{{key: s.inputText(full), stats: []string{"k_base_rejected(skipped)"}}}
 	}
-	o := runCorruption(s, []int{id}, "or-member-rule", "or-array-minItems-above(empty array)", s.where(id), "K-C04-or-minitems")
+	o := runCorruption(s, []int{id}, "or-member-rule", "or-array-minItems-above(empty array)", s.where(id), "K-C04-or-minitems", id)
 	o.stats = append(o.stats, "k_or_minitems_cases")
 	return []outcome{o}
 }
@@ -1003,6 +1113,7 @@ func Run(args []string) {
 	nPlain := vh.Pick(10000, 250000)
 	nShort := vh.Pick(1500, 40000)
 	nKnown := vh.Pick(40, 400)
+	nHist := vh.Pick(2500, 60000)
 	type job struct {
 		stream, i int
 	}
@@ -1023,6 +1134,8 @@ func Run(args []string) {
 					results <- oneSchema(j.i, false, 3)
 				case 2:
 					results <- oneSchema(j.i, true, 3)
+				case 4:
+					results <- oneHistory(j.i)
 				default:
 					results <- oneKnown(j.i)
 				}
@@ -1038,6 +1151,9 @@ func Run(args []string) {
 		}
 		for i := 0; i < nKnown; i++ {
 			jobs <- job{3, i}
+		}
+		for i := 0; i < nHist; i++ {
+			jobs <- job{4, i}
 		}
 		close(jobs)
 		wg.Wait()
